@@ -7,7 +7,7 @@ CLASSES = {"ends", "parse", "build"}
 
 
 def run(ctx):
-    cov, viol = E.run_engine(ctx, "c11", ["flags"], 240, 6000, CLASSES)
+    cov, viol = E.run_engine(ctx, "c11", ["flags"], 240, 6000, CLASSES, small=(True, 8, 0))
     cov["rule"] += ("; mode 'flags': random first-match flags on top-level alternations set through toggle sequences of "
                     "the public property (last value must be in force; rules whose definition is not an alternation "
                     "must ignore it; nested alternations must keep longest-match), random exclusion pairs; "
